@@ -69,6 +69,15 @@ def run_case(cs):
             ms = world.manifests(root, h)
             if ms:
                 os.remove(os.path.join(hist.asc_dir(root, h), rng.choice(ms)))
+    if state != "none" and rng.random() < 0.3:
+        # what an interrupted run or a file manager leaves behind inside ascmhl folders; nobody but create's own
+        # temporary chain name may ever be touched
+        for h in world.find_histories(root):
+            ad = hist.asc_dir(root, h)
+            for junk in rng.sample(["0009_x_2020-01-01_000000Z.mhl.tmp", "ascmhl_chain.xml.tmp", "._ascmhl_chain.xml", ".DS_Store", "notes.txt"], rng.randint(1, 3)):
+                with open(os.path.join(ad, junk), "wb") as f:
+                    f.write(b"<partial" + rng.randbytes(5))
+        cs.count("states_with_leftovers_in_ascmhl")
     packing = None
     if state in ("flat", "nested") and rng.random() < 0.5:
         r = drive.run("flatten", [root, dest])
@@ -207,6 +216,8 @@ def run_case(cs):
                     continue
                 problems.append(("added", p))
             for p in df["removed"]:
+                if os.path.basename(p) == "ascmhl_chain.xml.tmp" and os.path.basename(os.path.dirname(p)) == "ascmhl":
+                    continue  # create's own temporary name: a stale one is overwritten and renamed into place
                 problems.append(("removed", p))
             for p, fields in df["changed"].items():
                 base = os.path.basename(p)
